@@ -15,7 +15,17 @@ instance : Monad M where
 
 def getS : M State := fun s => (s, s)
 def modS (f : State → State) : M Unit := fun s => ((), f s)
-def emit (o : Obs) : M Unit := modS fun s => if s.blocked then s else { s with log := s.log ++ [o] }
+def Obs.isRep : Obs → Bool
+  | .rep .. => true
+  | _ => false
+
+/-- append an observation to the ghost log (replies go through `emitRep`; nothing is observable
+    once the daemon hangs) -/
+def emit (o : Obs) : M Unit := modS fun s => if s.blocked || o.isRep then s else { s with log := s.log ++ [o] }
+
+/-- a reply written to the control stream -/
+def emitRep (cid : String) (id : JVal) (status errno body : String) : M Unit :=
+  modS fun s => if s.blocked then s else { s with log := s.log ++ [Obs.rep cid id status errno body] }
 def getK : M Kernel := fun s => (s.k, s)
 def setK (k : Kernel) : M Unit := modS fun s => { s with k := k }
 
